@@ -117,8 +117,10 @@ Fixpoint first_diff (a b : list Z) (i : nat) : option nat :=
   | _, _ => Some i
   end.
 
-(* running digest of a list of outputs (the harness computes the same function on the implementation's list) *)
-Definition digest (l : list Z) : Z :=
-  fold_left (fun acc v => (acc * 1000003 + v + 7) mod 2305843009213693951) l 0.
+(* digest of a list of outputs: position-weighted sum and a quadratic sum (cheap under vm_compute: no
+   division); the harness computes the same function on the implementation's list *)
+Definition digest (l : list Z) : Z * Z :=
+  let '(a, b, _) := fold_left (fun '(a, b, i) v => (a + i * (v + 7), b + (v + 7) * (v + i), i + 1)) l (0, 0, 1)
+  in (a, b).
 
 Definition pairs_flat (l : list (Z * Z)) : list Z := flat_map (fun p => [fst p; snd p]) l.
